@@ -34,6 +34,7 @@ from ._read_common import (
     missing_codec_lib,
 )
 from .const import NAMED_TYPES, AVRO_TYPES
+from ._schema_py import _default_matches_schema
 
 T = TypeVar("T")
 
@@ -552,12 +553,49 @@ def read_record(
             for f_name, field in readers_field_dict.items():
                 if f_name not in writer_fields and f_name not in record:
                     if "default" in field:
-                        record[field["name"]] = field["default"]
+                        record[field["name"]] = _default_value(
+                            field["type"], field["default"], named_schemas["reader"]
+                        )
                     else:
                         msg = f"No default value for field {field['name']} in {reader_schema['name']}"
                         raise SchemaResolutionError(msg)
 
     return record
+
+
+def _default_value(schema, default, named_types):
+    """The JSON default of a reader field as a value of the field's type"""
+    if isinstance(schema, str):
+        schema = named_types.get(schema, schema)
+    if isinstance(schema, list):
+        for branch in schema:
+            if _default_matches_schema(default, branch, named_types):
+                return _default_value(branch, default, named_types)
+        return default
+    kind = extract_record_type(schema)
+    if kind == "bytes" or kind == "fixed":
+        return default.encode("iso-8859-1")
+    if kind == "double":
+        return float(default)
+    if kind == "float":
+        return unpack("<f", pack("<f", float(default)))[0]
+    if kind == "array":
+        return [_default_value(schema["items"], d, named_types) for d in default]
+    if kind == "map":
+        return {
+            k: _default_value(schema["values"], d, named_types)
+            for k, d in default.items()
+        }
+    if kind == "record" or kind == "error":
+        return {
+            f["name"]: _default_value(
+                f["type"],
+                default[f["name"]] if f["name"] in default else f["default"],
+                named_types,
+            )
+            for f in schema["fields"]
+        }
+    return default
 
 
 def skip_record(decoder, writer_schema, named_schemas):
